@@ -29,8 +29,10 @@ CLAIMED = {
 }
 
 _SCRIPT_NOTE = ("Trusted: harness/project.py (tree -> node table with content hashes) and harness/flatten.py (edit tree -> "
-                "events; node identity -> table id); TLC. Pairs differing only by numeric cross-type twins (1/1.0/true) "
-                "carry no equality expectation.")
+                "events; node identity -> table id); TLC. Numbers and booleans of different type (1 / 1.0 / true) are different "
+                "values; XML element text is data modulo surrounding whitespace (the equality C02's anchors name). Mechanism "
+                "models (L2, MODEL-DRIFT only, never a verdict) bound to the real classes run alongside: Choose.tla (edit "
+                "selection, C02), Driver.tla (driving loops of tree.py, C03).")
 _SCRIPT_TECH = ("TLA+ contract EditScript.tla; TLC model-checks that clause-respecting scripts read back both documents "
                 "(EditScriptMC); flattened scripts of real diffs validated by TLC against EditScriptTrace.tla")
 CLAIMED.update({
@@ -208,7 +210,7 @@ CLAIMED.update({
             "escapes decoded), and accepts iff both views are well-formed, their path sets equal those the same acceptor "
             "reads from json.dumps of the two documents, and marks are present exactly when the documents differ.",
             "Trusted: the regular expression that separates SGR escapes from characters, json.dumps as reference "
-            "rendering, TLC. Cross-type numeric twins are rewritten to strings.", "DESIGN.md 4.10, 5 (C06)", "render"),
+            "rendering, TLC. The printer itself is modelled and bound separately (Term.tla, MODEL-DRIFT only).", "DESIGN.md 4.10, 5 (C06)", "render"),
 })
 
 NOT_YET = "check not built yet in this round (planned: see DESIGN.md section 5)"
@@ -245,6 +247,14 @@ ENGINES = [
                                    "harness/flatten.py harness/corpus.py props/_script.py",
      "serves_properties": ["C01", "C02", "C03", "C10"],
      "kind_free_text": "TLA+ script contract + TLC model check of the read-back theorem + TLC trace validation of real diffs"},
+    {"name": "mechanisms", "path": "spec/Levenshtein.tla spec/Collection.tla spec/Compound.tla spec/Matcher.tla spec/MultiSet.tla "
+                                  "spec/Distinct.tla spec/Search.tla spec/Driver.tla spec/Choose.tla spec/Dispatch.tla spec/Status.tla "
+                                  "spec/Term.tla spec/TermHtml.tla spec/FibHeap.tla props/_lev.py props/_coll.py props/_compound.py props/_matcher.py "
+                                  "props/_mset.py props/_driver.py props/_choose.py props/_dispatch.py props/_status.py props/_term.py",
+     "serves_properties": ["C02", "C03", "C04", "C05", "C06", "C13", "C14", "C16", "C17"],
+     "kind_free_text": "L2 mechanism models of the classes behind the properties, each model-checked and bound to the real class by "
+                       "replaying TLC-generated behaviours / validating recorded runs; disagreement is MODEL-DRIFT in the evidence, "
+                       "never a verdict"},
     {"name": "pq", "path": "spec/PQ.tla spec/PQGen.tla spec/PQTrace.tla spec/FibHeap.tla props/c16.py",
      "serves_properties": ["C16"],
      "kind_free_text": "TLA+ contract + TLC behaviour enumeration replayed into the real heap + TLC trace validation"},
